@@ -180,6 +180,14 @@ def parallel(run, fn, chunks, jobs=None, chunk_timeout=None):
     ctx = mp.get_context('fork')
 
     def work(idx, conn):
+        # memory guard: a runaway simplification / nlsat query must not take the machine down
+        try:
+            import resource
+            lim = int(os.environ.get('VERIF_WORKER_MEM_GB', '8')) * (1 << 30)
+            resource.setrlimit(resource.RLIMIT_AS, (lim, lim))
+            z3.set_param('memory_max_size', 6000)
+        except Exception:
+            pass
         ch = chunks[idx]   # chunks are inherited through fork (they may hold closures)
         sub = Run(run.prop, run.tier, run.seed)
         sub.timeout_ms = run.timeout_ms
@@ -616,7 +624,7 @@ def decide_path(run, case, pctx, obs, role, vacuity=True, revars=None, split=Tru
             detail.update({'case': case_id(case), 'obligation': name,
                            'reason': 'solver model did not reproduce natively'})
             run.inconclusive.append(detail)
-    if nontrivial:
+    if items:
         run.case_keys.add(case_id(case))
     return failed
 
@@ -697,9 +705,10 @@ def finish(run, level, explanation, trusted_base, checker_cmd):
         'trusted_base': trusted_base,
         'evaluations': max(run.queries, 1),
         'distinct_nontrivial': max(len(run.case_keys), 0),
-        'rule': 'one evaluation = one solver query (SMT or CBMC); a case is distinct by (operation, type '
-                'instantiation, presence pattern); non-trivial = it has at least one obligation whose two '
-                'sides are syntactically different terms',
+        'rule': 'one evaluation = one solver query (SMT or CBMC harness); a case is distinct by (operation, type '
+                'instantiation, presence pattern) resp. by Kani harness; non-trivial = the case reached the '
+                'solver with at least one obligation between two independently obtained terms (traced '
+                'implementation output vs oracle, or outputs of two different operator forms / types)',
         'samples': run.samples,
         'explanation': explanation,
         'functions_encoded': sorted(run.functions),
